@@ -66,6 +66,7 @@ type Pools struct {
 	Trace                                               func(format string, a ...any)
 	rgOutstanding                                       int
 	DoublePuts                                          int64 // an object released while it was already in the pool
+	freshUntracked                                      int64 // rangers created under PoolFresh (not in the table)
 }
 
 // Install sets the jet hooks; the returned func removes them.
@@ -199,6 +200,15 @@ func (p *Pools) MarkLastReleased(failed bool) {
 
 //go:norace
 func (p *Pools) swapRanger(pool *sync.Pool, got jet.Ranger, fresh func() jet.Ranger) jet.Ranger {
+	if p.Policy == PoolFresh {
+		// nothing is ever reused under this policy: do not keep track of the object at all (a long
+		// run creates thousands of rangers; a table of them makes every release a linear scan)
+		p.RgFresh++
+		p.rgOutstanding++
+		p.freshUntracked++
+		p.trace("pool-get %s-ranger fresh (untracked)", jet.VerifRangerPoolName(pool))
+		return fresh()
+	}
 	var cand []int
 	for i := range p.rgs {
 		if p.rgs[i].free && p.rgs[i].pool == pool {
@@ -258,6 +268,14 @@ func (p *Pools) swapRanger(pool *sync.Pool, got jet.Ranger, fresh func() jet.Ran
 
 //go:norace
 func (p *Pools) releaseRanger(pool *sync.Pool, r jet.Ranger) {
+	if p.Policy == PoolFresh && p.freshUntracked > 0 {
+		// released under the no-reuse policy: dropped, like an object a sync.Pool loses at the next GC
+		if p.rgOutstanding > 0 {
+			p.rgOutstanding--
+		}
+		p.trace("pool-put %s-ranger (dropped)", jet.VerifRangerPoolName(pool))
+		return
+	}
 	p.relSeq++
 	for i := range p.rgs {
 		if p.rgs[i].r == r {
